@@ -22,11 +22,29 @@ type nstep struct {
 	S string `json:"s,omitempty"`
 	C string `json:"c,omitempty"`
 	V string `json:"v,omitempty"`
+	// batch: operations submitted back to back and committed as ONE delta (bsize = len(ops))
+	Ops []nop `json:"ops,omitempty"`
 }
+
+type nop struct {
+	K string `json:"k"`
+	C string `json:"c"`
+	V string `json:"v"`
+}
+
+// commitCounter counts successful batch commits of one replica (hook events).
+type commitCounter struct {
+	mu sync.Mutex
+	ok int
+}
+
+func (c *commitCounter) get() int { c.mu.Lock(); defer c.mu.Unlock(); return c.ok }
 
 type nscript struct {
 	ID         int     `json:"id"`
 	NRep       int     `json:"nrep"`
+	Trust      string  `json:"trust"` // "all": TrustAll; "mutual": explicit trusted-peer sets (everybody trusts everybody)
+	BSize      int     `json:"bsize"` // 0: direct writes; n: batching with MaxBatchSize n, MaxBatchAge 400ms
 	Steps      []nstep `json:"steps"`
 	Nontrivial bool    `json:"nontrivial"`
 	Class      string  `json:"class"`
@@ -112,7 +130,7 @@ func samePins(obs []obsRec, comps [][]int) bool {
 func runNetScript(s *nscript, seed int64, tf *traceFile, res *hx.Result) {
 	names := hx.NewNames(seed)
 	rc := &recorder{t0: time.Now()}
-	rc.emit("reset", "run", s.ID, "kind", "net", "nrep", s.NRep, "class", s.Class)
+	rc.emit("reset", "run", s.ID, "kind", "net", "nrep", s.NRep, "bsize", s.BSize, "trust", s.Trust, "class", s.Class)
 	for _, c := range []string{"c1", "c2"} {
 		o, err := valueOrder(names.Cid(c), names)
 		if err != nil || !reflect.DeepEqual(o, wantOrder) {
@@ -121,6 +139,7 @@ func runNetScript(s *nscript, seed int64, tf *traceFile, res *hx.Result) {
 		}
 	}
 	reps := []*replica{}
+	commits := []*commitCounter{}
 	idx := map[string]int{}
 	defer func() {
 		for _, r := range reps {
@@ -129,18 +148,78 @@ func runNetScript(s *nscript, seed int64, tf *traceFile, res *hx.Result) {
 	}()
 	for i := 0; i < s.NRep; i++ {
 		name := "r" + string(rune('0'+i))
-		r, err := newReplica(name, names, replicaOpts{TrustAll: true, Rebroadcast: time.Second,
-			ClusterName: "verif-c02-" + string(rune('a'+s.ID%26))}, rc.emit)
+		o := replicaOpts{TrustAll: s.Trust != "mutual", Rebroadcast: time.Second, ClusterName: "verif-c02-" + string(rune('a'+s.ID%26))}
+		if s.BSize > 0 {
+			o.MaxBatchSize = s.BSize
+			o.MaxBatchAge = 400 * time.Millisecond
+		}
+		r, err := newReplica(name, names, o, rc.emit)
 		if err != nil {
 			res.Infra("run %d: cannot create replica: %v", s.ID, err)
 			return
 		}
+		cc := &commitCounter{}
+		commits = append(commits, cc)
+		pid := r.h.ID()
+		hookMu.Lock()
+		hookMap[pid] = func(ev string, kv ...interface{}) {
+			if ev != "commit" {
+				return
+			}
+			for i := 0; i+1 < len(kv); i += 2 {
+				if kv[i] == "ok" && kv[i+1] == true {
+					cc.mu.Lock()
+					cc.ok++
+					cc.mu.Unlock()
+				}
+			}
+		}
+		hookMu.Unlock()
+		defer func() {
+			hookMu.Lock()
+			delete(hookMap, pid)
+			hookMu.Unlock()
+		}()
 		idx[name] = i
 		reps = append(reps, r)
+	}
+	if s.Trust == "mutual" {
+		for _, a := range reps {
+			for _, b := range reps {
+				if a != b {
+					a.cons.Trust(context.Background(), b.h.ID())
+				}
+			}
+		}
 	}
 	var edges [][2]int
 	for _, st := range s.Steps {
 		switch st.K {
+		case "batch":
+			// s.BSize operations -> one size-triggered commit; fewer -> one age-triggered commit
+			r, cc := reps[idx[st.R]], commits[idx[st.R]]
+			before := cc.get()
+			lops := []map[string]string{}
+			for _, o := range st.Ops {
+				v := o.V
+				if o.K == "unpin" {
+					v = "-"
+				}
+				if out, _ := r.submit(o.K, o.C, o.V); out != "ok" {
+					res.Infra("run %d: batched %s on %s refused", s.ID, o.K, st.R)
+					return
+				}
+				lops = append(lops, map[string]string{"k": o.K, "c": o.C, "v": v})
+			}
+			dl := time.Now().Add(20 * time.Second)
+			for cc.get() == before && time.Now().Before(dl) {
+				time.Sleep(5 * time.Millisecond)
+			}
+			if cc.get() != before+1 {
+				res.Infra("run %d: expected exactly one commit for a batch of %d on %s, saw %d", s.ID, len(st.Ops), st.R, cc.get()-before)
+				return
+			}
+			rc.emit("batch", "r", st.R, "ops", lops)
 		case "pin", "unpin":
 			v := st.V
 			if st.K == "unpin" {
@@ -224,6 +303,7 @@ func TestNet(t *testing.T) {
 	rig.Quiet()
 	res := hx.NewResult()
 	defer res.Write()
+	installHook()
 	cases, err := hx.LoadCases()
 	if err != nil {
 		res.Infra("load cases: %v", err)
